@@ -91,3 +91,50 @@ func VerifH_C17_b_table() {
 		vAssert("table/stored-under-prefixed-key", (rerr == nil) == present && (!present || bytes.Equal(raw, want)))
 	}
 }
+
+// H-C17-e-table: iteration through the table wrapper is iteration over the table's own keys. A table with the
+// one-byte prefix 'T' over the real memory database that also holds foreign keys (prefix 'U' / 'S'): two entries
+// written through the table under arbitrary one-byte keys, one foreign entry written directly; the table's
+// iterator (no inner prefix, or an arbitrary one-byte inner prefix) yields exactly the table's entries that carry
+// the inner prefix, with the table prefix removed, ascending, with their values — never a foreign key.
+func VerifH_C17_e_table() {
+	base := NewMemoryDatabase(nil)
+	t := NewTable(base, "T", common.Location{0, 0}, nil)
+	a, b := vU8("keyA"), vU8("keyB")
+	vAssume(a != b)
+	vAssert("put/ok", t.Put([]byte{a}, []byte{1}) == nil && t.Put([]byte{b}, []byte{2}) == nil)
+	foreign := []byte{'U', vU8("foreignKey")}
+	if vBool("foreignBelow") {
+		foreign[0] = 'S'
+	}
+	base.Put(foreign, []byte{9})
+	var inner []byte
+	if vBool("withInnerPrefix") {
+		inner = []byte{vU8("innerPrefix")}
+	}
+	match := func(k byte) bool { return len(inner) == 0 || k == inner[0] }
+	it := t.NewIterator(inner, nil)
+	var keys, vals []byte
+	for it.Next() {
+		k := it.Key()
+		vAssert("iterate/key-has-table-prefix-removed", len(k) == 1)
+		keys = append(keys, k[0])
+		vals = append(vals, it.Value()[0])
+	}
+	it.Release()
+	vReach("iterated")
+	n := 0
+	if match(a) {
+		n++
+	}
+	if match(b) {
+		n++
+	}
+	vAssert("iterate/exactly-the-tables-matching-entries", len(keys) == n)
+	for i, k := range keys {
+		vAssert("iterate/own-entry-with-its-value", (k == a && match(a) && vals[i] == 1) || (k == b && match(b) && vals[i] == 2))
+		if i > 0 {
+			vAssert("iterate/ascending-order", keys[i-1] < k)
+		}
+	}
+}
